@@ -62,6 +62,8 @@ def apply_fault(fault, data, payload=None):
         return b'', 'close'
     if fault == 'stall':
         return b'', 'stall'
+    if fault == 'reset':
+        return b'', 'reset'
     k = fault[0]
     if k == 'trunc':
         return data[:fault[1]], fault[2]
@@ -153,9 +155,19 @@ class Server:
         with self.lock:
             idx = self.nconn
             self.nconn += 1
+        self.check_refusal(idx)
         c = Conn(self, idx, nonblocking)
         self.conns.append(c)
         return c
+
+    def check_refusal(self, idx):
+        f = self.fault_for('connect', idx)
+        if f == 'refuse':
+            self.log.append((idx, 'refused', None))
+            raise ConnectionRefusedError(errno.ECONNREFUSED, 'Connection refused')
+        if f == 'timeout':
+            self.log.append((idx, 'connect-timeout', None))
+            raise socket.timeout('timed out')
 
     def fault_for(self, what, idx):
         f = self.faults.get((what, idx))
@@ -197,6 +209,7 @@ class Conn:
         self.closed_by_server = False
         self.closed_by_client = False
         self.stalled = False
+        self.reset = False
         self.got_banner = False
         self.client_banner = None
         self.client_msgs = []          # payloads received
@@ -245,6 +258,9 @@ class Conn:
             self.closed_by_server = True
         elif after == 'stall':
             self.stalled = True
+        elif after == 'reset':
+            self.closed_by_server = True
+            self.reset = True
 
     def client_send(self, data):
         self.bytes_from_client += len(data)
@@ -337,6 +353,7 @@ class Ssh1Server(Server):
         with self.lock:
             idx = self.nconn
             self.nconn += 1
+        self.check_refusal(idx)
         c = Ssh1Conn(self, idx, nonblocking)
         self.conns.append(c)
         return c
@@ -455,6 +472,8 @@ class VSocket:
             del c.out[:k]
             return d
         if c.closed_by_server:
+            if c.reset:
+                raise ConnectionResetError(errno.ECONNRESET, 'Connection reset by peer')
             return b''
         if self.timeout == 0.0:
             raise BlockingIOError(errno.EAGAIN, 'Resource temporarily unavailable')
